@@ -56,7 +56,7 @@ theorem GenerateCookieName_total (E : Go.Ext) (opts : Go.CookieOpts) (state : St
   cases opts.CSRFPerRequest <;>
     simp [ExtractStateSubstring_eq, csrfCookieName_eq, bind, Except.bind, pure, Except.pure]
 
-example : Gen.Tr.ExtractStateSubstring ⟨fun _ _ => [], fun _ => [], 0, fun _ => none, fun _ _ => false, fun _ => none, fun _ => none⟩
+example : Gen.Tr.ExtractStateSubstring Go.Ext.trivial
     ['a', 'b', 'c', 'd', 'e', 'f', 'g'] = .ok [] := by rfl
 
 end O2P.TrCsrf
